@@ -632,6 +632,14 @@ func MonC10() *Mon {
 			if !n.Active() || accepted(n) {
 				return
 			}
+			if n.FlagCleared && n.D.BlockIndex == n.FlagClearedH && n.D.ViewNumber == n.FlagClearedV {
+				// The application cleared this validator's watch-only flag in the middle of the view it is still in.  A
+				// node that enters a view as watch-only arms no timer (by design) and timers are armed at initialisation
+				// and on timeouts only, so it stays without one until its next view or height.  Not judged here: the
+				// property's "validator" is read as a node that has been one since it entered its epoch (see DESIGN §6).
+				n.W.Stat("c10_not_judged_flag_cleared_mid_view")
+				return
+			}
 			w, t := n.W, n.Timer
 			if d.BlockSent() {
 				w.Fail("C10", fmt.Sprintf("node %d height %d: the library considers the height decided although the application was handed no block", n.ID, d.BlockIndex), "decided-without-block")
